@@ -198,3 +198,137 @@ def _make(shapes):
 
 
 CONTRACTS = [_make((l, r)) for l in ("simple", "own", "other") for r in ("simple", "own", "other")]
+
+
+# =================================================================================================
+# Projection `expr | "signal-T"` (C01, C13): the result carries the VALUE of expr on signal T.
+#   _lower_projection_from_signal   same type -> the reference itself; else the producer is retyped (contract of
+#                                   _try_fold_projection_into_source: same node, target type) or a `+ 0` combinator onto T is added;
+#                                   a declared input stays declared through the projection
+#   _lower_projection_from_int      a constant with that value on T
+#   lower_projection_expr           dispatch by what the operand lowers to; the target name is registered with the signal registry
+# =================================================================================================
+from contracts.c01 import builder_arith as _builder_arith, builder_const as _builder_const  # noqa: E402
+
+PJ = {}
+
+
+def _pj_reset(a):
+    PJ.clear()
+    return True
+
+
+def _pj_fold(ex, a):
+    src = a.source_ref
+    r = ghost(ex.args_ns.expr, "folded", ty.TOpt(ty.TObj("SignalRef", only=("SignalRef",))))
+    if r is not None:
+        ex.assume(And(den(r) == den(src), r.signal_type == a.target_type, r.source_id == src.source_id))
+        PJ["folded"] = r
+    return r
+
+
+def _pj_get_op(ex, a):
+    ns = ex.args_ns
+    if a.node_id is ns.source_ref.source_id:
+        return ghost(ns.source_ref, "node", ty.TOpt(ty.TObj("IRNode", only=("IRConst", "IRArith", "IRDecider", "IRMemRead"), ftypes=(("debug_metadata", ty.TRecord((("user_declared", ty.Bool),))),))))
+    node = PJ.get("result_node")
+    if node is None:
+        node = SObj(["IRArith"], fresh_name("projection_node"), lazy=False)
+        node._fields["debug_metadata"] = {}
+        PJ["result_node"] = node
+    return node
+
+
+def _pj_register(ex, a):
+    PJ.setdefault("registered", []).append(a.signal_key)
+    return None
+
+
+_pj_fold_c = Contract(qualname=EL + "_try_fold_projection_into_source", params={"self": _OPQ, "source_ref": _OPQ, "target_type": _OPQ, "proj_expr": _OPQ}, effect=_pj_fold, verify=False,
+                      note="verified separately (contracts.c13): None, or a reference to the SAME node on the target type (the node now outputs on it)")
+_pj_getop_c = Contract(qualname=IRB + "get_operation", params={"self": _OPQ, "node_id": _OPQ}, effect=_pj_get_op, verify=False, note="dictionary lookup: the producer node of a reference")
+_pj_reg_c = Contract(qualname="dsl_compiler/src/lowering/lowerer.py::ASTLowerer.ensure_signal_registered", params={"self": _OPQ, "signal_key": _OPQ, "signal_type": _OPQ},
+                     defaults={"signal_type": None}, effect=_pj_register, verify=False, note="registers the name with the signal registry (recorded)")
+_PJ_USES = {"ExpressionLowerer._try_fold_projection_into_source": _pj_fold_c, "IRBuilder.get_operation": _pj_getop_c, "ASTLowerer.ensure_signal_registered": _pj_reg_c,
+            "IRBuilder.arithmetic": _builder_arith, "IRBuilder.const": _builder_const, "ExpressionLowerer._attach_expr_context": "skip", "ExpressionLowerer._error": "skip"}
+_PJ_DYN = {"self": {"ir_builder": ty.TObj("IRBuilder", only=("IRBuilder",)), "parent": ty.TObj("ASTLowerer", only=("ASTLowerer",)), "diagnostics": ty.TOpaque("diag")}}
+_PEXPR = ty.TObj("ProjectionExpr", only=("ProjectionExpr",))
+
+
+def _from_signal_post(a, res):
+    src = a.source_ref
+    cs = [den(res) == den(src), res.signal_type == a.target_type]
+    if res is src:
+        return And(*cs)
+    if res is PJ.get("folded"):
+        return And(*cs)
+    # a new combinator: the target is registered, and a declared producer stays declared
+    node = src._fields.get("@node")
+    rn = PJ.get("result_node")
+    cs.append(any(r is a.target_type for r in PJ.get("registered", [])))
+    if node is not None:
+        declared = node.debug_metadata["user_declared"]
+        marked = rn is not None and rn._fields["debug_metadata"].get("user_declared") is True
+        cs.append(declared if marked else Not(declared))
+    return And(*[x if not isinstance(x, bool) else z3.BoolVal(x) for x in cs])
+
+
+CONTRACTS.append(Contract(
+    qualname=EL + "_lower_projection_from_signal", params={"self": ty.TObj("ExpressionLowerer", only=("ExpressionLowerer",)), "expr": _PEXPR, "source_ref": _SRC, "target_type": ty.Str},
+    requires=[("(reset capture)", _pj_reset), ("values are int32", lambda a: A.i32(den(a.source_ref)))],
+    ensures=[("the result carries the operand's value on the target signal (same reference / retyped producer / `+ 0` combinator); a declared input stays declared", _from_signal_post)],
+    uses=_PJ_USES, dynamic_types=_PJ_DYN, properties=("C01", "C13"), min_obligations=3, no_replay=True))
+
+CONTRACTS.append(Contract(
+    qualname=EL + "_lower_projection_from_int", params={"self": ty.TObj("ExpressionLowerer", only=("ExpressionLowerer",)), "expr": _PEXPR, "source_value": ty.Int, "target_type": ty.Str},
+    requires=[("(reset capture)", _pj_reset)],
+    ensures=[("a constant with that value on the target signal, the target registered",
+              lambda a, res: And(den(res) == a.source_value, res.signal_type == a.target_type, any(r is a.target_type for r in PJ.get("registered", []))))],
+    uses=_PJ_USES, dynamic_types=_PJ_DYN, properties=("C01", "C13"), min_obligations=1, no_replay=True))
+
+
+def _pj_lower(ex, a):
+    v = ex.mk(_REF, fresh_name("operand"), register=True)
+    PJ["operand"] = v
+    return v
+
+
+def _pj_resolve_type(ex, a):
+    return ghost(ex.args_ns.expr, "target", ty.TOpt(ty.Str))
+
+
+def _pj_from(kind):
+    def eff(ex, a):
+        PJ[kind] = a
+        r = SObj(["SignalRef"], fresh_name(kind), lazy=True)
+        PJ[kind + "_result"] = r
+        return r
+    return eff
+
+
+def _dispatch_post(a, res):
+    v = PJ.get("operand")
+    t = a.expr._fields.get("@target")
+    want_t = t if t is not None else z3.String("fresh_implicit_type")
+    if isinstance(v, SObj):
+        c = PJ.get("from_signal")
+        return c is not None and "from_int" not in PJ and res is PJ["from_signal_result"] and c.source_ref is v and (c.target_type is want_t or c.target_type.eq(want_t))
+    c = PJ.get("from_int")
+    return c is not None and "from_signal" not in PJ and res is PJ["from_int_result"] and c.source_value is v and (c.target_type is want_t or c.target_type.eq(want_t))
+
+
+CONTRACTS.append(Contract(
+    qualname=EL + "lower_projection_expr", params={"self": ty.TObj("ExpressionLowerer", only=("ExpressionLowerer",)), "expr": ty.TObj("ProjectionExpr", only=("ProjectionExpr",), ftypes=(("expr", ty.TObj("Expr")),))},
+    requires=[("(reset capture)", _pj_reset)],
+    ensures=[("the operand is lowered once and projected by the rule for what it lowered to, onto the resolved target (a fresh implicit type after a reported error)", _dispatch_post)],
+    uses={"ExpressionLowerer.lower_expr": Contract(qualname=EL + "lower_expr", params={"self": _OPQ, "expr": _OPQ}, effect=_pj_lower, verify=False, note="the lowered operand: an integer or a signal reference"),
+          "ExpressionLowerer._resolve_signal_type": Contract(qualname=EL + "_resolve_signal_type", params={"self": _OPQ, "type_ref": _OPQ, "node": _OPQ}, effect=_pj_resolve_type, verify=False,
+                                                             note="the target signal name (None after a reported error)"),
+          "IRBuilder.allocate_implicit_type": Contract(qualname=IRB + "allocate_implicit_type", params={"self": _OPQ}, effect=lambda ex, a: z3.String("fresh_implicit_type"), verify=False,
+                                                       note="fresh implicit type name"),
+          "ExpressionLowerer._lower_projection_from_signal": Contract(qualname=EL + "_lower_projection_from_signal", params={"self": _OPQ, "expr": _OPQ, "source_ref": _OPQ, "target_type": _OPQ},
+                                                                      effect=_pj_from("from_signal"), verify=False, note="proved above"),
+          "ExpressionLowerer._lower_projection_from_int": Contract(qualname=EL + "_lower_projection_from_int", params={"self": _OPQ, "expr": _OPQ, "source_value": _OPQ, "target_type": _OPQ},
+                                                                   effect=_pj_from("from_int"), verify=False, note="proved above"),
+          "ExpressionLowerer._error": "skip"},
+    dynamic_types=_PJ_DYN, properties=("C01", "C13"), min_obligations=2, no_replay=True))
